@@ -1,4 +1,8 @@
 pub mod c01;
+pub mod c02;
+pub mod c03;
+pub mod c04;
+pub mod c05;
 pub mod common;
 
 use crate::runner::Ctx;
@@ -7,6 +11,10 @@ use std::path::Path;
 pub fn run_check(ctx: &Ctx) -> i32 {
     match ctx.id.as_str() {
         "C01" => c01::check(ctx),
+        "C02" => c02::check(ctx),
+        "C03" => c03::check(ctx),
+        "C04" => c04::check(ctx),
+        "C05" => c05::check(ctx),
         other => {
             eprintln!("unknown property {other}");
             2
@@ -27,6 +35,10 @@ pub fn run_replay(ctx: &Ctx, file: &Path) -> i32 {
     let sub = v["check"].as_str().unwrap_or("").to_string();
     let r = match ctx.id.as_str() {
         "C01" => c01::replay(ctx, &sub, &bytes, &v["case"]),
+        "C02" => c02::replay(ctx, &sub, &bytes, &v["case"]),
+        "C03" => c03::replay(ctx, &sub, &bytes, &v["case"]),
+        "C04" => c04::replay(ctx, &sub, &bytes, &v["case"]),
+        "C05" => c05::replay(ctx, &sub, &bytes, &v["case"]),
         other => {
             eprintln!("unknown property {other}");
             return 2;
